@@ -308,6 +308,18 @@ def range_family(run, quick):
         desc = "%s %s %s step %d, end %s" % (t, "inclusive" if incl else "exclusive", "down" if down else "up", sv, "hit exactly" if exact else "stepped over")
         fam.append((desc, "lit-call-range-step", prog("lit"), prog("call")))
         fam.append((desc, "bind-range-step", prog("lit"), prog("let")))
+        if down and core.BITS[t] < 64:
+            # the same negative step written as a narrowing cast of a wider literal ((253 as i8) = -3): a constant evaluator that
+            # sees through the cast must wrap the value exactly as the run-time conversion does
+            wide = {"i8": "i32", "i16": "i32", "i32": "u32"}[t]
+            cst = ("cast", ("lit", wide, (1 << core.BITS[t]) + sv), t)
+            def prog2(bound):
+                pre = [("let", 4, t, cst, False)] if bound else []
+                step = ("var", 4) if bound else cst
+                return [dict(params=[], ret="void", body=pre + [("let", 1, t, ("lit", t, a), True), ("let", 2, t, ("lit", t, b), True),
+                                                                 ("for", 3, t, ("var", 1), ("var", 2), [("print", [("var", 3)])], incl, step),
+                                                                 ("print", [("lit", t, 0)])])]
+            fam.append((desc + " (step as a wrapping cast)", "bind-range-step-cast", prog2(False), prog2(True)))
     return fam
 
 def main(run):
